@@ -180,7 +180,15 @@ impl Method for PhoneticMethod {
                 return Suggestion::empty();
             }
 
-            self.create_suggestion(data, config)
+            let suggestion = self.create_suggestion(data, config);
+
+            if suggestion.is_empty() {
+                // Nothing is left to show (only the escape character remains), an
+                // empty suggestion from a BackSpace event ends the input session.
+                self.buffer.clear();
+            }
+
+            suggestion
         } else {
             Suggestion::empty()
         }
